@@ -1,6 +1,8 @@
 package h
 
 import (
+	"github.com/xjslang/xjs/lexer"
+	"github.com/xjslang/xjs/parser"
 	"github.com/xjslang/xjs/token"
 	"github.com/xjslang/xjs/zzverif/sym"
 )
@@ -95,5 +97,78 @@ func ZZH12Fuse() {
 	}
 	sym.Observe("script", s.Types(), s.Newlines(), g.Fused)
 	firstErrorNotBefore(s, first-1, "fused")
+	sym.Cover("end")
+}
+
+// ZZH12Literal: a program truncated inside a string or backtick literal is
+// rejected by strict mode, and not before the literal (C12, text level: the
+// real lexer reads the truncated text).
+func ZZH12Literal() {
+	K := sym.Param("K", 3)
+	n := sym.Choose("len", K+1)
+	q := []byte{'"', '\'', '`'}[sym.Choose("quote", 3)]
+	body := sym.String("s", n)
+	for i := 0; i < n; i++ {
+		sym.Assume(body[i] < 0x80)
+		if q != '`' {
+			// a raw line break inside a quoted string is not the truncation of
+			// any valid program (no completion makes it valid)
+			sym.Assume(sym.And(body[i] != '\n', body[i] != '\r'))
+		}
+	}
+	src := "x=" + string([]byte{q}) + body
+	// the reference scanner must see an unterminated literal (no closing
+	// delimiter before the end of the text)
+	toks := RScan(src)
+	sym.Assume(len(toks) == 4 && toks[2].Kind == RBad && toks[2].Start == 2)
+	p := parser.NewBuilder(lexer.NewBuilder()).Build(src)
+	_, err := p.ParseProgram()
+	errs := p.Errors()
+	sym.Observe("src", src, len(errs))
+	sym.Assert(err != nil && len(errs) > 0, "truncated-literal-rejected")
+	if len(errs) > 0 {
+		e := errs[0].Range.Start
+		sym.Assert(e.Line > 0 || e.Column >= 2, "truncated-literal-first-error-not-before-the-literal")
+	}
+	sym.Cover("end")
+}
+
+// cannotEnd: a token type with which no ECMAScript program of the subset can
+// end (an operand, a body or a closing delimiter must follow).
+func cannotEnd(t token.Type) bool {
+	switch t {
+	case token.ASSIGN, token.PLUS_ASSIGN, token.MINUS_ASSIGN, token.PLUS, token.MINUS, token.MULTIPLY, token.DIVIDE, token.MODULO,
+		token.EQ, token.NOT_EQ, token.LT, token.GT, token.LTE, token.GTE, token.AND, token.OR, token.NOT,
+		token.COMMA, token.COLON, token.DOT, token.LPAREN, token.LBRACKET, token.LBRACE,
+		token.FUNCTION, token.LET, token.IF, token.ELSE, token.WHILE, token.FOR:
+		return true
+	}
+	return false
+}
+
+// ZZH12TruncateIncomplete: a valid program cut right after a token that
+// cannot end a program (an operator, an opening delimiter, a keyword that
+// needs a continuation, or the ) of an if/while/for header) is rejected by
+// strict mode, first error at or after the last kept token.
+func ZZH12TruncateIncomplete() {
+	g := NewGen(sym.Param("budget", 2))
+	g.ConcretePos = true
+	g.Smart = sym.Param("smart", 0) == 1
+	s := g.Program(sym.Param("stmts", 2))
+	n := len(s.Toks)
+	cut := 1 + sym.Choose("cut", n)
+	last := s.Toks[cut-1].Type
+	header := false
+	for _, h := range g.HeaderEnds {
+		if h == cut-1 {
+			header = true
+		}
+	}
+	sym.Assume(cannotEnd(last) || header)
+	s.Toks = s.Toks[:cut]
+	s.EOF.Start = token.Position{Line: 0, Column: 2 * cut}
+	s.EOF.End = s.EOF.Start
+	sym.Observe("script", s.Types(), s.Newlines(), cut)
+	firstErrorNotBefore(s, cut-1, "incomplete")
 	sym.Cover("end")
 }
